@@ -436,6 +436,11 @@ func (g *gen) stepClone(pi int) {
 			cands = append(cands, pj)
 		}
 	}
+	if pc.AddPathRX && len(g.lastAnn[pi]) > 0 && (len(cands) == 0 || r.Chance(0.6)) {
+		// the same neighbour announces a second path for one of its prefixes under another path
+		// identifier (everything the identifier hash of the export side sees from the session is equal)
+		cands = []int{pi}
+	}
 	if len(cands) == 0 || !pc.IPv4 || (g.avoidAPTrigger() && pc.AddPathTX > 0) {
 		// (add-path TX sessions stay receive-only unless the run explores known finding F-C08-1)
 		g.stepAnnounce(pi)
@@ -474,6 +479,15 @@ func (g *gen) stepClone(pi int) {
 	st := Step{GapUS: g.gap(), Kind: "announce", Peer: pi, Pfx: []Prefix{pfx}, Attr: &a, Label: "clone"}
 	if pc.AddPathRX {
 		st.PathIDs = []uint32{uint32(1 + r.Intn(3))}
+		if pj == pi {
+			// a path identifier this prefix is not announced under yet, if there is one
+			for id := uint32(1); id <= 4; id++ {
+				if _, used := g.announced[pi][viewKey{pfx, id}]; !used {
+					st.PathIDs = []uint32{id}
+					break
+				}
+			}
+		}
 	}
 	id := uint32(0)
 	if len(st.PathIDs) > 0 {
